@@ -300,7 +300,7 @@ def _emptiness(test: ast.AST, bs: "BatchStatistics", at) -> bool:
     while isinstance(t, ast.UnaryOp) and isinstance(t.op, ast.Not):
         t = t.operand
     if isinstance(t, ast.BoolOp):
-        return all(_emptiness(v, bs, at) or not bs.rd.depends_on(v, at, bs.data) for v in t.values)
+        return all(_emptiness(v, bs, at) or _identity_test(v) or not bs.rd.depends_on(v, at, bs.data) for v in t.values)
     if isinstance(t, ast.Call):
         f = t.func
         nm = f.attr if isinstance(f, ast.Attribute) else (f.id if isinstance(f, ast.Name) else "")
@@ -312,6 +312,14 @@ def _emptiness(test: ast.AST, bs: "BatchStatistics", at) -> bool:
             if k in (0, 1) and _count_like(a, bs, at):
                 return True
     return False
+
+
+def _identity_test(v: ast.AST) -> bool:
+    """`x is None` / `x is not None`: presence of an object (a child node, an optional
+    argument), not a statistic of the rows"""
+    while isinstance(v, ast.UnaryOp) and isinstance(v.op, ast.Not):
+        v = v.operand
+    return isinstance(v, ast.Compare) and len(v.ops) == 1 and isinstance(v.ops[0], (ast.Is, ast.IsNot)) and isinstance(v.comparators[0], ast.Constant) and v.comparators[0].value is None
 
 
 def _count_like(e: ast.AST, bs: "BatchStatistics", at, depth=0) -> bool:
